@@ -75,7 +75,8 @@ def r1_chain(ctx: Ctx) -> None:
             f = astq.callee(c)
             if f in ("cls", "nodes.Or", "nodes.And", "nodes.Pow") and len(c.args) >= 2:
                 order = [ast.unparse(a) for a in c.args[:2]]
-                ctx.check(order == ["left", "right"], f"{level}:order:{f}", f"parser:Parser.{level}", f"{f} operand order",
+                # the second operand is the local `right` or, inlined, the operand parser's call
+                ctx.check(order[0] == "left" and (order[1] == "right" or (order[1].startswith("self.parse_") and order[1].endswith("()"))), f"{level}:order:{f}", f"parser:Parser.{level}", f"{f} operand order",
                           f"{f}({', '.join(order)}) swaps the operands", fi.loc(c))
     # compare operators come from the table
     pc = repo.func("parser:Parser.parse_compare")
